@@ -320,7 +320,7 @@ func (s *Solver) Solve(u *Unit, o *Obligation) *Result {
 		r.SolverMs["z3-5.1.0"] += ms0
 		r.VCBytes = len(whole)
 		if a0 == "unsat" {
-			os.Remove(path0)
+			rmQuery(path0)
 			r.Status, r.Answer, r.Solver, r.Cases = "discharged", "unsat", "z3-5.1.0", 1
 			return r
 		}
@@ -350,7 +350,7 @@ func (s *Solver) Solve(u *Unit, o *Obligation) *Result {
 				r.SolverMs[k] += v
 			}
 			if cr.answer == "unsat" {
-				os.Remove(path0)
+				rmQuery(path0)
 				r.Status, r.Answer, r.Solver, r.Cases = "discharged", "unsat", cr.solver, 1
 				return r
 			}
@@ -428,7 +428,9 @@ func (s *Solver) Solve(u *Unit, o *Obligation) *Result {
 		if o.IsCover {
 			r.Model = cr.model
 		}
-		os.Remove(path)
+		if os.Getenv("GPV_KEEP") == "" {
+			os.Remove(path)
+		}
 	}
 	if len(scripts) == 0 {
 		// every case collapsed syntactically
@@ -703,3 +705,10 @@ func genericSym(s string) bool {
 }
 
 var _ = sort.Strings
+
+// rmQuery removes a decided query file unless GPV_KEEP asks to keep them for inspection.
+func rmQuery(p string) {
+	if os.Getenv("GPV_KEEP") == "" {
+		os.Remove(p)
+	}
+}
